@@ -104,13 +104,15 @@ def classify_fill(c, solvent, value, base):
         return 'infeasible', 'unit', 0.0
     if not (value > 0):
         return 'infeasible', 'non_positive', 0.0
+    if not math.isfinite(value):
+        return 'infeasible', 'infinite_amount', 0.0          # no vessel holds an infinite amount, whatever its stated capacity
     cur = R.measure(c.contents, base)
     pb = R.per(solvent, base)
     if pb == 0:
         # a solvent without measure in the unit of the target can never move the total (recorded finding KF03)
         return 'infeasible', 'solvent_has_no_measure', 0.0
-    # the fill requirement is honoured to one quantum q in *base* units (like mass requests)
-    rq = H1.request_quantum(base, c.contents) + K * H1.storage_noise_in(c.contents, base) + cf.q
+    # the fill requirement is honoured to one request quantum
+    rq = H1.request_quantum(base, c.contents) + K * H1.storage_noise_in(c.contents, base) + cf.q * (cf.mol_prefix if base != 'L' else cf.vol_prefix)
     need = value - cur
     if need < -(1e-6 * cur + K * rq):
         return 'infeasible', 'below_current', 0.0
